@@ -157,3 +157,34 @@ func VerifH_C11_overlapping_data() {
 		verif.Assert(w.rec.count("packet") <= 2, "its payload is not processed")
 	}
 }
+
+// VerifH_C11_overlapping_poll_during_write: a duplicate poll arriving at any yield point
+// while the response of the pending poll is still being produced (here: inside the
+// compression step) overlaps it: 400 and a transport error, and the pending poll is
+// answered exactly once.
+func VerifH_C11_overlapping_poll_during_write() {
+	w := newPollWorld("4")
+	w.p.SetHttpCompression(&types.HttpCompression{Threshold: 0})
+	first := w.request("GET", "poll", "")
+	first.ctx.Request().Header.Set("Accept-Encoding", "gzip")
+	first.ctx.Headers().Set("Accept-Encoding", "gzip")
+	w.p.OnRequest(first.ctx)
+	second := w.request("GET", "poll", "")
+	injected := false
+	verif.Event("duplicate poll", func() {
+		injected = true
+		w.p.OnRequest(second.ctx)
+	})
+	verif.InjectBudget(1)
+	w.p.Send([]*packet.Packet{{Type: packet.MESSAGE, Data: types.NewStringBufferString("out"), Options: &packet.Options{Compress: true}}})
+	verif.Settle()
+	verif.InjectBudget(0)
+	if injected && first.w.writeCalls == 0 {
+		return // injected before the write began: covered by VerifH_C11_script
+	}
+	verif.Assert(first.w.writeCalls == 1, "the pending poll is answered exactly once")
+	if injected {
+		verif.Assert(len(second.w.status) == 1 && second.w.status[0] == 400, "a poll that overlaps a response still being produced is answered 400")
+		verif.Assert(w.rec.count("error") >= 1, "and reported as a transport error")
+	}
+}
